@@ -1009,7 +1009,8 @@ type slowSpanExp struct {
 	inner    sdktrace.SpanExporter
 	delay    time.Duration
 	xshut    atomic.Int64
-	late     atomic.Int64
+	late     atomic.Int64 // exports begun after, or still running when, a Shutdown call returned
+	inflight atomic.Int64
 	returned *atomic.Bool
 }
 
@@ -1017,6 +1018,8 @@ func (e *slowSpanExp) ExportSpans(ctx context.Context, s []sdktrace.ReadOnlySpan
 	if e.returned.Load() {
 		e.late.Add(1)
 	}
+	e.inflight.Add(1)
+	defer e.inflight.Add(-1)
 	time.Sleep(e.delay)
 	return e.inner.ExportSpans(ctx, s)
 }
@@ -1036,6 +1039,7 @@ func childDSlow(sc scenario) resultJ {
 	merged := map[string]*roundJ{}
 	var order []string
 	ctx := context.Background()
+	yrace := sc.Slow < 10 // OnEnd callers racing one Shutdown, exporter 1-5 ms per export
 	for n := 0; n < sc.N; n++ {
 		var returned atomic.Bool
 		exp := &slowSpanExp{inner: tracetest.NewInMemoryExporter(), delay: time.Duration(sc.Slow) * time.Millisecond, returned: &returned}
@@ -1057,6 +1061,12 @@ func childDSlow(sc scenario) resultJ {
 			if g < 2 {
 				what[g] = g
 			}
+			if yrace { // ONE Shutdown (direct or through the provider), everybody else keeps ending spans
+				what[g] = 2
+				if g == 0 {
+					what[g] = n & 1
+				}
+			}
 		}
 		atRet := make([]int, sc.G)
 		errs := make([]string, sc.G)
@@ -1067,8 +1077,11 @@ func childDSlow(sc scenario) resultJ {
 			go func(g int) {
 				defer wg.Done()
 				start.Wait()
-				if g&1 == 1 {
+				if g&1 == 1 && !yrace {
 					time.Sleep(time.Duration(sc.Slow) * time.Millisecond / 3) // arrive while the first caller is exporting
+				}
+				if yrace && what[g] != 2 {
+					time.Sleep(time.Duration(sc.Slow) * time.Millisecond * time.Duration(2+n%5)) // exports are under way
 				}
 				var err error
 				switch what[g] {
@@ -1077,10 +1090,20 @@ func childDSlow(sc scenario) resultJ {
 				case 1:
 					err = tp.Shutdown(ctx)
 				default:
-					sp.OnEnd(endedSpan())
+					for k := 0; k < 1 || (yrace && k < 40 && !returned.Load()); k++ {
+						sp.OnEnd(endedSpan())
+					}
+					if yrace {
+						for k := 0; k < 3; k++ {
+							sp.OnEnd(endedSpan()) // and a few more after the Shutdown has (probably) returned
+						}
+					}
 					atRet[g] = -1
 					errs[g] = "ENil"
 					return
+				}
+				if exp.inflight.Load() > 0 {
+					exp.late.Add(1) // an export is still running although Shutdown has returned
 				}
 				atRet[g] = int(exp.xshut.Load())
 				returned.Store(true)
@@ -1117,4 +1140,109 @@ func childDSlow(sc scenario) resultJ {
 		res.Rounds = append(res.Rounds, *merged[k])
 	}
 	return res
+}
+
+// ---- first Shutdown with an already-cancelled context, then used and shut down again ----
+
+func childDCancel(sc scenario) resultJ {
+	rec := &recorder{}
+	out := &syncBuf{}
+	kind := sc.Kinds[0]
+	log := strings.HasPrefix(kind, "L")
+	simple := strings.Contains(kind, "Simple")
+	var sp sdktrace.SpanProcessor
+	var lp sdklog.Processor
+	if log {
+		lp = stockLogProc(0, kind, sc.Extra, rec, out)
+	} else {
+		sp = stockSpanProc(0, kind, sc.Extra, rec, out)
+	}
+	ctx := context.Background()
+	feed := func() {
+		if log {
+			var r sdklog.Record
+			_ = lp.OnEmit(ctx, &r)
+		} else {
+			sp.OnEnd(endedSpan())
+		}
+	}
+	shutdown := func(c context.Context) error {
+		if log {
+			return lp.Shutdown(c)
+		}
+		return sp.Shutdown(c)
+	}
+	var res resultJ
+	xshut, late := 0, 0
+	afterFirst := false
+	account := func(before int) {
+		_, xs := rec.take()
+		for _, c := range xs {
+			if c.K == "KXShutdown" {
+				xshut++
+			}
+			if c.K == "KExport" && afterFirst && simple && !log {
+				late++
+			}
+		}
+		if afterFirst && simple && out.Len() > before {
+			late++ // output grew after the first Shutdown had returned
+		}
+	}
+	var later []string
+	for _, o := range sc.Ops {
+		before := out.Len()
+		switch o.K {
+		case "onend":
+			feed()
+		case "flush":
+			if log {
+				later = append(later, errClass(lp.ForceFlush(ctx)))
+			} else {
+				later = append(later, errClass(sp.ForceFlush(ctx)))
+			}
+		case "shutdowndead":
+			res.ShutErr = errClass(shutdown(ctxFor(false)))
+			account(before)
+			afterFirst = true
+			continue
+		case "shutdown":
+			later = append(later, errClass(shutdown(ctx)))
+		}
+		account(before)
+	}
+	// a processor that honoured the cancelled context finishes in the background: wait for the exporter's Shutdown
+	for i := 0; i < 400 && xshut == 0 && hasExporter(kind); i++ {
+		time.Sleep(5 * time.Millisecond)
+		account(out.Len())
+	}
+	res.XShutdowns = []int{xshut}
+	res.Late = late
+	res.StormKinds = later
+	return res
+}
+
+func genDCancel(r *vgen.Rand, i int) scenario {
+	kinds := []string{"PSimple XStd", "PSimple XMem", "PBatch XStd", "PBatch XMem", "LSimple XStd", "LBatch XStd", "PSimple XNil", "LBatch XNil"}
+	sc := scenario{Kind: "dcancel", Kinds: []string{kinds[i%len(kinds)]}, Extra: r.Intn(20)}
+	for k := 0; k < r.Intn(3); k++ {
+		sc.Ops = append(sc.Ops, opJ{K: "onend"})
+	}
+	sc.Ops = append(sc.Ops, opJ{K: "shutdowndead"}, opJ{K: "onend"})
+	logSimple := strings.HasPrefix(sc.Kinds[0], "LSimple")
+	for k := 0; k < r.Range(1, 4); k++ {
+		o := vgen.Pick(r, []string{"onend", "flush", "shutdown"})
+		if logSimple && o != "onend" {
+			o = "onend" // the log SimpleProcessor has no guard of its own: a second Shutdown / a flush reach the exporter again
+		}
+		sc.Ops = append(sc.Ops, opJ{K: o})
+	}
+	if !logSimple {
+		sc.Ops = append(sc.Ops, opJ{K: "shutdown"}, opJ{K: "onend"})
+	}
+	return sc
+}
+
+func dcancelCoq(sc scenario, res *resultJ) string {
+	return fmt.Sprintf("CDCancel %v %d %d %s [%s]", hasExporter(sc.Kinds[0]), res.XShutdowns[0], res.Late, res.ShutErr, strings.Join(res.StormKinds, ";"))
 }
